@@ -21,6 +21,10 @@ def labels(rng, n, kind):
         return [str(w) for w in rng.choice(words, size=n, replace=False)]
     if kind == 'strnum':
         return [str(v) for v in rng.choice(np.arange(1, 25), size=n, replace=False)]
+    if kind == 'floatts':
+        # acquisition time stamps (seconds since the epoch, one hour apart): distinct floats that are equal to within
+        # the default tolerances of numpy.isclose -- labels are matched by value, not approximately
+        return [float(1.7e9 + 3600.0 * v) for v in rng.choice(np.arange(0, 40), size=n, replace=False)]
     raise ValueError(kind)
 
 
